@@ -45,6 +45,8 @@ var Catalog = []Prog{
 	{"closure-loop", `fs := []; for i := 0; i < 3; i++ { j := i + a; fs = append(fs, func() { return j }) }; out := fs[0]() + fs[1]()*10 + fs[2]()*100`, false},
 	{"closure-forin-func", `f := func(xs) { fs := []; for k, v in xs { fs = append(fs, func() { return v * 10 + k }) }; r := []; for g in fs { r = append(r, g()) }; return r }; out := f([a, b, 3])`, false},
 	{"closure-for-func", `f := func(n) { fs := []; for i := 0; i < n; i++ { j := i * 2; fs = append(fs, func() { return i + j }) }; r := []; for g in fs { r = append(r, g()) }; return r }; out := f(3) + f(b == 0 ? 1 : 2)`, false},
+	{"discarded-selfcall-then-calls", `cnt := func(k) { if k == 0 { return }; cnt(k-1) }; cnt(2); dbl := func(x) { return x * 2 }; ap := func(g, x) { return g(x) }; o1 := dbl(a); o2 := ap(dbl, b); o3 := cnt(0); out := [o1, o2, o3]`, false},
+	{"selfcall-mixed-forms", `f := func(n, first) { if n == 0 { return 7 }; if !first { return f(n-1, false) }; f(n-1, false) }; g := func(n) { if n == 0 { return 7 }; if n % 2 == 0 { return g(n-1) }; g(n-1) }; out := [f(3, true), f(2, false), g(2), g(0), f(0, true)]`, false},
 	{"closure-param", `f := func(p) { g := func() { p += 1; return p }; g(); return g() + p }; out := f(a)`, false},
 	{"shadowing", `x := a; out := 0; if c { x := b; x += 1; out = x } else { x = x + 2; out = x }; y := x`, false},
 	{"block-scope", `out := a; if true { out := b; out += 1 }; o2 := out; if c { o3 := out + 1; out = o3 }`, false},
